@@ -250,6 +250,13 @@ def make_virtual_select (clock, real_select=None, stats=None):
     rl = list(rl); wl = list(wl); xl = list(xl)
     ro = []; wo = []; xo = []
     real_r = []; real_w = []
+    # a closed socket has no descriptor any more: select() refuses the whole
+    # call, exactly as the real one does (fileno() is -1)
+    for x in rl + wl + xl:
+      s = _sock_of(x)
+      if isinstance(s, FakeSocket) and s.closed:
+        if stats is not None: stats["closed_in_select"] = stats.get("closed_in_select", 0) + 1
+        raise ValueError("file descriptor cannot be a negative integer (-1)")
     for x in rl:
       s = _sock_of(x)
       if s is None: real_r.append(x)
@@ -481,6 +488,11 @@ class SwitchPeer (object):
     else:
       cls = sw.SoftwareSwitch
     self.switch = cls(dpid, ports=ports, **kw)
+    # A second switch, made later and never used, so that the one under
+    # observation is not the newest object of its class: state that is shared
+    # between switch instances (a class-level table filled in __init__) then
+    # shows as the wrong switch acting or answering.
+    self._decoy = sw.SoftwareSwitch((dpid ^ 0x5a5a5a) or 1, ports=1)
     self.sock = sock
     self.worker = ioloop.new_worker(sock)
     self.conn = sw.OFConnection(self.worker)
@@ -530,6 +542,8 @@ class DirectSwitch (object):
     self.worker.on_close = lambda w: None
     self.conn = sw.OFConnection(self.worker)
     self.switch = sw.SoftwareSwitch(dpid, ports=ports, **kw)
+    # (see SwitchPeer: a later, unused switch instance)
+    self._decoy = sw.SoftwareSwitch((dpid ^ 0x5a5a5a) or 1, ports=1)
     self.switch.set_connection(self.conn)
     self.out = []
     self.switch.addListener(sw.DpPacketOut, self._on_out)
@@ -537,6 +551,20 @@ class DirectSwitch (object):
 
   def _on_out (self, e):
     self.out.append((e.port.port_no, e.packet.pack()))
+
+  def reconnect (self):
+    """The controller connection is replaced (the switch keeps its state)."""
+    sw = self.sw_mod
+    import pox.lib.ioworker as iow
+    try: self.worker.close()
+    except Exception: pass
+    self.sock = FakeSocket("dsw-re")
+    self.worker = iow.RecocoIOWorker(self.sock)
+    self.worker.pinger = _NullPinger()
+    self.worker.on_close = lambda w: None
+    self.conn = sw.OFConnection(self.worker)
+    self.switch.set_connection(self.conn)
+    self.worker.send_buf = b""
 
   def feed (self, data):
     self.sock.feed(data)
